@@ -325,6 +325,8 @@ def finish(ctx, err=None):
     if new and err is None:
         rc = 1
         rdir = os.path.join(VERIF, "replays", ctx.prop)
+        if os.path.abspath(REPO) != "/repo":
+            rdir = os.path.join("/var/tmp/verif-alt-replays", ctx.prop)
         os.makedirs(rdir, exist_ok=True)
         for v in new:
             if v["sig"] in seen:
@@ -359,8 +361,11 @@ def finish(ctx, err=None):
         # nothing was explored (error before TLC ran): keep the file schema-valid but honest
         ev["level"] = "other"
         cov["explanation"] = "check aborted before any exploration: %s" % (str(err)[:300] if err else "n/a")
-    os.makedirs(os.path.join(VERIF, "evidence"), exist_ok=True)
-    with open(os.path.join(VERIF, "evidence", "%s.json" % ctx.prop), "w") as f:
+    evdir = os.path.join(VERIF, "evidence")
+    if os.path.abspath(REPO) != "/repo":
+        evdir = "/var/tmp/verif-alt-evidence"  # development runs against another checkout do not touch the evidence
+    os.makedirs(evdir, exist_ok=True)
+    with open(os.path.join(evdir, "%s.json" % ctx.prop), "w") as f:
         json.dump(ev, f, indent=1)
     return rc
 
